@@ -319,6 +319,7 @@ func runC02(c *Ctx) {
 	runC02Resync(c, q, funcs)
 	runC02Chain(c, funcs)
 	runC02Round4(c)
+	runC02Round5(c)
 	runDoneHandOff(c, "R11")
 }
 
@@ -422,6 +423,22 @@ func capacityGuarded(b *ssa.BasicBlock, T *types.Named, sizeF string, q *qbAncho
 		}
 		if isCapacityCmp(g, T, sizeF, q, true) {
 			return false, "the enqueue effect is on the OVER-capacity side of the test"
+		}
+	}
+	// path-sensitive fallback: the over-capacity side of the test cannot reach the effect without being tested again,
+	// when two tests of the same flag (stopped) are taken consistently
+	for _, d := range b.Parent().Blocks {
+		iff, ok := d.Instrs[len(d.Instrs)-1].(*ssa.If)
+		if !ok {
+			continue
+		}
+		g := Guard{Cond: iff.Cond, Branch: true, If: iff}
+		if !isCapacityCmp(g, T, sizeF, q, true) {
+			continue
+		}
+		cut := map[*ssa.BasicBlock]bool{d: true}
+		if d != b && !reachConsistent(b.Parent().Blocks[0], b, cut) && !reachConsistent(d.Succs[0], b, cut) {
+			return true, ""
 		}
 	}
 	// look for a capacity comparison with another comparator to explain
